@@ -55,7 +55,7 @@ def _case(draw, tier):
     content = draw(gen.contents())
     other = draw(gen.contents(big=False))
     kind = draw(st.sampled_from(ops.KINDS))
-    n = content["n"] if "n" in content else len(content["hex"]) // 2
+    n = len(common.make_content(content))
     offset = draw(st.one_of(st.just(0), st.just(n), st.integers(0, max(n, 1)))) if kind in (
         "file", "bytesio", "bufreader", "rwfile", "shortreads") else 0
     with_pid = draw(st.sampled_from([True, True, True, False]))
